@@ -228,6 +228,16 @@ func (c *Ctx) pathDetail(fo *FO, p *pw.Path, msg string) (string, []string) {
 
 var siblings = []string{"Failover", "FailoverOf"}
 
+// currentAlias mirrors Report.Alias for hasViolation.
+var currentAlias = map[string]string{}
+
+// withAlias runs f with rule ids remapped.
+func (c *Ctx) withAlias(m map[string]string, f func()) {
+	c.R.Alias, currentAlias = m, m
+	defer func() { c.R.Alias, currentAlias = nil, map[string]string{} }()
+	f()
+}
+
 func init() {
 	register("C01", checkC01)
 }
@@ -451,6 +461,9 @@ func (c *Ctx) c01Sibling(fo *FO) {
 }
 
 func hasViolation(obls []*coreObl, rule, cons string) bool {
+	if a, ok := currentAlias[rule]; ok {
+		rule = a
+	}
 	for _, o := range obls {
 		if o.Rule == rule && o.Construct == cons && o.Status != "discharged" {
 			return true
